@@ -24,6 +24,8 @@ var c12Tokens = []string{
 	// complete modifiers, so that short (also one-character) patterns that need a
 	// restriction to be accepted are within the token bound
 	"$domain=a.com", "$client=x", "$ctag=x", "$dnstype=A", "$denyallow=a.com", "$dnsrewrite=", "$important,domain=x.org|a.com",
+	// bytes that are not UTF-8, a rune whose lower case is shorter
+	"\xff", "\u212a", "||a.com^*",
 }
 
 func c12Requests() []*rules.Request {
